@@ -477,6 +477,12 @@ def mon_C08(hist, ctxs, kf):
                     if not srow or srow[0][1]:
                         v.append((x.i, "close of %s/%s by side %s answered closed, but the mailbox is still there and the side is %s"
                                   % (unhex(a), unhex(m), unhex(side), "still recorded as having it open" if srow else "not recorded at all")))
+                    elif not any(s[0] == m and s[1] for s in post["mbs"]):
+                        # when the last open side closes, the mailbox goes -- with its messages, side records and nameplate
+                        v.append((x.i, "close of %s/%s by side %s answered closed and no side has the mailbox open any more, but the "
+                                  "mailbox (with %d messages, %d side records) is still there"
+                                  % (unhex(a), unhex(m), unhex(side), len([q for q in post["msg"] if q[1] == m]),
+                                     len([s for s in post["mbs"] if s[0] == m]))))
         # close always completes: it never fails internally (except through known finding KF1:
         # the named mailbox id exists under another app)
         if x.mtype == "close" and not x.crash and x.c in x.bound_pre and x.exc is not None \
